@@ -9,6 +9,7 @@ import (
 	"fmt"
 	"os"
 	"runtime"
+	"runtime/debug"
 	"sort"
 	"strconv"
 	"strings"
@@ -77,6 +78,18 @@ func c20call(addr uintptr) {
 	f()
 }
 
+// c20write calls stub.Write; a memory fault inside the writer (SIGSEGV on a protected page) becomes an error.
+func c20write(s *Space, data []byte) (err error) {
+	old := debug.SetPanicOnFault(true)
+	defer debug.SetPanicOnFault(old)
+	defer func() {
+		if r := recover(); r != nil {
+			err = fmt.Errorf("fault: %v", r)
+		}
+	}()
+	return Write(s, data)
+}
+
 // c20kernelGrants reports whether the kernel grants an anonymous RWX mapping of n bytes right now (the oracle of the model).
 func c20kernelGrants(n int) bool {
 	b, err := syscall.Mmap(-1, 0, n, syscall.PROT_READ|syscall.PROT_WRITE|syscall.PROT_EXEC, syscall.MAP_SHARED|syscall.MAP_ANON)
@@ -116,21 +129,35 @@ func c20check(s *Space, want int, seq uint64, fentry, fend uintptr) string {
 	if n > 1<<16 {
 		n = 1 << 16 // write the first 64 KiB of very large mappings only
 	}
-	data := make([]byte, n)
-	for i := range data {
-		data[i] = byte(seq*131 + uint64(i)*7 + 1)
-	}
-	data[0] = 0xC3 // RET
-	if err := Write(s, data); err != nil {
-		return flags + "!write-err"
-	}
+	// "writable through the provided writer" is a property of EVERY write, not of the first one: the owner of a region
+	// re-generates its stub in place.  Write 2-4 times with different contents and read back after each write; a memory
+	// fault inside the writer is turned into an observation.
 	got := *(*[]byte)(unsafe.Pointer(&struct {
 		p    uintptr
 		l, c int
 	}{s.Addr, n, n}))
-	for i := range data {
-		if got[i] != data[i] {
-			flags += "!write"
+	data := make([]byte, n)
+	rounds := 2 + int(seq%3)
+	for r := 0; r < rounds; r++ {
+		for i := range data {
+			data[i] = byte(seq*131 + uint64(i)*7 + 1 + uint64(r)*29)
+		}
+		data[0] = 0xC3 // RET
+		if err := c20write(s, data); err != nil {
+			if strings.Contains(err.Error(), "fault") {
+				return flags + fmt.Sprintf("!write-fault-on-write-%d", r+1)
+			}
+			return flags + fmt.Sprintf("!write-err-on-write-%d", r+1)
+		}
+		for i := range data {
+			if got[i] != data[i] {
+				return flags + fmt.Sprintf("!readback-after-write-%d", r+1)
+			}
+		}
+		// the protection the writer leaves behind must allow the next write through the same writer and execution
+		pm := c20perms(s.Addr)
+		if s.typ == TypeMMap && !strings.Contains(pm, "w") {
+			flags += fmt.Sprintf("!mapping-not-writable-after-write-%d", r+1)
 			break
 		}
 	}
@@ -306,6 +333,154 @@ func c20crun(toks []string) string {
 	return fmt.Sprintf("clobbered=%d off=+%d %s", clobbered, int64(atomic.LoadUintptr(&placeHolderIns.off))-int64(min), strings.Join(out, " "))
 }
 
+// c20writes: `c20.writes <m|h> <len> <n>` — acquire one region on the given path and write it n times through stub.Write.
+// Observation: `ok perm=<rwx|rx>` (protection left behind) or `fault@<k>` / `err@<k>` / `readback@<k>`.
+func c20writes(toks []string) string {
+	n, _ := strconv.Atoi(toks[2])
+	k, _ := strconv.Atoi(toks[3])
+	var sp *Space
+	if toks[1] == "m" {
+		s, err := Acquire(n)
+		if err != nil || s.typ != TypeMMap {
+			return "env-mismatch no mapping"
+		}
+		sp = s
+	} else {
+		atomic.StoreUintptr(&placeHolderIns.off, placeHolderIns.min)
+		a, b, err := acquireFromHolder(n)
+		if err != nil {
+			return "env-mismatch reserve"
+		}
+		sp = &Space{Addr: a, Space: b, typ: TypeHolder}
+	}
+	got := *(*[]byte)(unsafe.Pointer(&struct {
+		p    uintptr
+		l, c int
+	}{sp.Addr, n, n}))
+	data := make([]byte, n)
+	for r := 1; r <= k; r++ {
+		for i := range data {
+			data[i] = byte(r*17 + i*3 + 2)
+		}
+		if err := c20write(sp, data); err != nil {
+			if strings.Contains(err.Error(), "fault") {
+				return fmt.Sprintf("fault@%d", r)
+			}
+			return fmt.Sprintf("err@%d", r)
+		}
+		for i := range data {
+			if got[i] != data[i] {
+				return fmt.Sprintf("readback@%d", r)
+			}
+		}
+	}
+	pm := c20perms(sp.Addr)
+	if strings.Contains(pm, "w") && strings.Contains(pm, "x") {
+		return "ok perm=rwx"
+	}
+	if strings.Contains(pm, "x") {
+		return "ok perm=rx"
+	}
+	return "ok perm=" + pm
+}
+
+// c20cwrite: `c20.cwrite <off> <min> <max> <writers> <regions per writer> <len> <rounds>` — regions are taken from the
+// reserve one after the other and dealt to the writers round-robin, so neighbouring regions (same code page) belong to
+// different writers; then every writer, released from a spin barrier, writes each of ITS OWN regions `rounds` times
+// through stub.Write and reads it back.  A fault inside the writer is an observation.
+func c20cwrite(toks []string) string {
+	min, max := uintptr(vh.U64(toks[2])), uintptr(vh.U64(toks[3]))
+	if placeHolderIns.min != min || placeHolderIns.max != max {
+		return "env-mismatch geometry"
+	}
+	W, _ := strconv.Atoi(toks[4])
+	per, _ := strconv.Atoi(toks[5])
+	n, _ := strconv.Atoi(toks[6])
+	rounds, _ := strconv.Atoi(toks[7])
+	if W < 1 || per < 1 || n < 1 || rounds < 1 {
+		return "bad-op"
+	}
+	atomic.StoreUintptr(&placeHolderIns.off, uintptr(vh.U64(toks[1])))
+	regs := make([][]*Space, W)
+	pages := map[uintptr]map[int]bool{}
+	for k := 0; k < W*per; k++ {
+		a, b, err := acquireFromHolder(n)
+		if err != nil {
+			return "env-mismatch reserve exhausted"
+		}
+		regs[k%W] = append(regs[k%W], &Space{Addr: a, Space: b, typ: TypeHolder})
+		pg := a &^ 4095
+		if pages[pg] == nil {
+			pages[pg] = map[int]bool{}
+		}
+		pages[pg][k%W] = true
+	}
+	shared := 0
+	for _, ws := range pages {
+		if len(ws) > 1 {
+			shared++
+		}
+	}
+	old := runtime.GOMAXPROCS(0)
+	if W+1 > old {
+		runtime.GOMAXPROCS(W + 1)
+	}
+	defer runtime.GOMAXPROCS(old)
+	var ready, stop int32
+	var faults, errs, mism, writes int64
+	var first atomic.Value
+	var wg sync.WaitGroup
+	for w := 0; w < W; w++ {
+		wg.Add(1)
+		go func(w int) {
+			defer wg.Done()
+			debug.SetPanicOnFault(true)
+			data := make([]byte, n)
+			atomic.AddInt32(&ready, 1)
+			for atomic.LoadInt32(&ready) < int32(W) {
+			}
+			for r := 0; r < rounds && atomic.LoadInt32(&stop) == 0; r++ {
+				for j, sp := range regs[w] {
+					for i := range data {
+						data[i] = byte(w*53 + j*19 + r*7 + i + 3)
+					}
+					err := c20write(sp, data)
+					atomic.AddInt64(&writes, 1)
+					if err != nil {
+						if strings.Contains(err.Error(), "fault") {
+							atomic.AddInt64(&faults, 1)
+						} else {
+							atomic.AddInt64(&errs, 1)
+						}
+						first.CompareAndSwap(nil, fmt.Sprintf("writer%d:region+%d:round%d", w, int64(sp.Addr)-int64(min), r))
+						atomic.StoreInt32(&stop, 1)
+						return
+					}
+					got := *(*[]byte)(unsafe.Pointer(&struct {
+						p    uintptr
+						l, c int
+					}{sp.Addr, n, n}))
+					for i := range data {
+						if got[i] != data[i] {
+							atomic.AddInt64(&mism, 1)
+							first.CompareAndSwap(nil, fmt.Sprintf("writer%d:region+%d:round%d", w, int64(sp.Addr)-int64(min), r))
+							atomic.StoreInt32(&stop, 1)
+							return
+						}
+					}
+				}
+			}
+		}(w)
+	}
+	wg.Wait()
+	f, _ := first.Load().(string)
+	if f == "" {
+		f = "-"
+	}
+	return fmt.Sprintf("faults=%d errs=%d mismatches=%d writes=%d regions=%d shared_pages=%d first=%s perm=%s", faults, errs, mism, writes,
+		W*per, shared, f, c20perms(min))
+}
+
 // TestVerifC20 runs the operation stream.
 func TestVerifC20(t *testing.T) {
 	out := vh.OpenOut()
@@ -326,6 +501,10 @@ func TestVerifC20(t *testing.T) {
 				atomic.LoadUintptr(&placeHolderIns.off), name, fentry, fend, strings.Join(ws, ","), syscall.Getpagesize())
 		case op.Toks[0] == "c20.seq" && len(op.Toks) >= 4:
 			out.Put(op.Idx, "%s", c20seq(op.Toks, fentry, fend))
+		case op.Toks[0] == "c20.writes" && len(op.Toks) == 4:
+			out.Put(op.Idx, "%s", c20writes(op.Toks))
+		case op.Toks[0] == "c20.cwrite" && len(op.Toks) == 8:
+			out.Put(op.Idx, "%s", c20cwrite(op.Toks))
 		case op.Toks[0] == "c20.crun" && len(op.Toks) == 6:
 			out.Put(op.Idx, "%s", c20crun(op.Toks))
 		default:
